@@ -426,7 +426,8 @@ static int do_ann(hwloc_topology_t t, char *line)
     else if (!strcmp(s1, "cpubind")) { base = (unsigned char *)sup->cpubind; sz = sizeof(*sup->cpubind); }
     else if (!strcmp(s1, "membind")) { base = (unsigned char *)sup->membind; sz = sizeof(*sup->membind); }
     else return -1;
-    base[k % sz] = (unsigned char)v;
+    if (k >= sz) return -1;            /* the caller enumerates indexes; the struct of the current source decides how many exist */
+    base[k] = (unsigned char)v;
     return 0;
   }
   if (!strcmp(op, "osindex") && sscanf(line, "%u %llu", &k, &v) == 2) {
